@@ -271,16 +271,34 @@ func (a Complex) M__le__(other Object) (Object, error) {
 	return a.M__lt__(other)
 }
 
-func (a Complex) M__eq__(other Object) (Object, error) {
+// complexEqual compares a with other.  An int operand is compared
+// exactly (never rounded to a float first).  ok is false if other is
+// not a number
+func complexEqual(a Complex, other Object) (eq bool, ok bool) {
+	switch other.(type) {
+	case Int, *BigInt, Bool:
+		if imag(a) != 0 {
+			return false, true
+		}
+		cmp, ordered, _ := floatCompare(Float(real(a)), other)
+		return ordered && cmp == 0, true
+	}
 	if b, ok := convertToComplex(other); ok {
-		return NewBool(a == b), nil
+		return a == b, true
+	}
+	return false, false
+}
+
+func (a Complex) M__eq__(other Object) (Object, error) {
+	if eq, ok := complexEqual(a, other); ok {
+		return NewBool(eq), nil
 	}
 	return NotImplemented, nil
 }
 
 func (a Complex) M__ne__(other Object) (Object, error) {
-	if b, ok := convertToComplex(other); ok {
-		return NewBool(a != b), nil
+	if eq, ok := complexEqual(a, other); ok {
+		return NewBool(!eq), nil
 	}
 	return NotImplemented, nil
 }
